@@ -103,7 +103,7 @@ theorem process_cf_dir (hC : CfCtx s p snap o) (st : ISt) {x : Entry} (hx : alLo
       (none, { st with iters := ⟨x.path, true, cfItems s x⟩ :: st.iters, deferred := x :: st.deferred }, gPre x w) := by
   unfold process
   simp only [hd, hl, Bool.not_false, true_or, and_self, if_true, Bool.false_eq_true, false_and, if_false, hdepth, hpre,
-    mkIter_cf hC hx hpx, hC.sorted, hC.minDepth, Nat.not_lt_zero, hC.cf]
+    mkIter_cf hC hx hpx, hC.sorted, hC.minDepth, Nat.not_lt_zero, hC.cf, hC.files, hC.dirs, and_false, or_self]
 
 omit hpre in
 /-- a link to a directory: not descended into, deferred -/
@@ -111,7 +111,7 @@ theorem process_cf_dirlink (hC : CfCtx s p snap o) (st : ISt) {x : Entry} (hd : 
     (w : σ) : process snap o pre st x w = (none, { st with deferred := x :: st.deferred }, w) := by
   unfold process
   simp only [hd, hl, Bool.not_true, hC.follow, Bool.false_eq_true, or_self, and_false, if_false, hC.minDepth,
-    Nat.not_lt_zero, hC.cf, and_self, if_true]
+    Nat.not_lt_zero, hC.cf, and_self, if_true, hC.files, hC.dirs, false_and]
 
 omit hpre in
 /-- anything else is yielded at once -/
